@@ -203,4 +203,5 @@ RULES = [
     r_nothing_left_on_the_stack,
     r_check_is_fresh,
     r_stream_exact,
+    lambda ctx: __import__("rules.logic", fromlist=["x"]).r_fol_table(ctx),
 ]
